@@ -189,6 +189,11 @@ def run(tier, replay):
                 # is judged by TLC (RowsAcceptable) below
                 exp = {g: r for g, r in c["central"].items() if r["has"]}
                 for kind, rws in (("csv", rows), ("table", res.get("table") or [])):
+                    if kind == "table" and any(len(r) != 3 for r in rws):
+                        # the layout of the terminal table is not part of the property: if it cannot be read as rows of
+                        # three cells it is not judged
+                        V.diverge("case %d: the terminal table could not be parsed into rows of 3 cells" % c["id"])
+                        continue
                     ok = len({r[0] for r in rws if r}) == len(rws) and all(
                         len(r) == 3 and r[0] in exp and r[1] == str(exp[r[0]]["cnt"]) and
                         close(r[2], expected_cell(exp[r[0]], c["op"], c["vals"][r[0]], c["lens"][r[0]])) for r in rws)
